@@ -483,7 +483,7 @@ fn run(ctx: &mut Ctx) {
         });
     }
     // generated projects, well-typed and ill-typed
-    let n = tier.pick(64u64, 1200u64) / ctx.nshards as u64 + 1;
+    let n = tier.pickn(64u64, 1200u64) / ctx.nshards as u64 + 1;
     for i in 0..n {
         let mut rng = Rng::keyed(seed, "c13-gen", ctx.shard as u64, i);
         let proj = Project::generate(&mut rng, 6);
